@@ -83,6 +83,7 @@ struct Sock {
   int64_t acc_at = 0;
   int closes = 0;
   bool nodelay = false;
+  int rcvlowat = 1;  // SO_RCVLOWAT as set by the code under test (1 = the default; only values > 1 change anything below)
   size_t in_hold_sent = 0;  // inbound data is withheld until this many bytes were sent (a server that answers after reading the request)
 };
 
@@ -139,6 +140,21 @@ struct Kernel {
   void arm_in(Sock &s) {
     if (!s.in.empty()) s.in_at = now + s.in.front().delay;
   }
+  // With SO_RCVLOWAT > 1 the kernel reports the socket readable once that many bytes have accumulated (segments keep arriving whether or not
+  // anybody reads), or at end-of-stream / on an error.  Time at which that happens for the queued segments; INT64_MAX = never.
+  int64_t lowat_time(const Sock &s) const {
+    int64_t t = s.in_at;
+    size_t have = 0;
+    for (size_t i = 0; i < s.in.size(); i++) {
+      const InItem &h = s.in[i];
+      if (i > 0) t += h.delay;
+      if (h.t != IN_DATA) return t;
+      have += h.data.size() - (i == 0 ? h.off : 0);
+      if (have >= (size_t)s.rcvlowat) return t;
+    }
+    return INT64_MAX;
+  }
+  bool in_arrived(const Sock &s) const { return !s.in.empty() && (s.rcvlowat > 1 ? lowat_time(s) : s.in_at) <= now; }
   void arm_out(Sock &s) {
     if (!s.out.empty() && s.out.front().t == OUT_BLOCK) s.out_at = now + s.out.front().delay;
   }
@@ -189,7 +205,7 @@ struct Kernel {
     }
     if (s.in_end) {
       r |= POLLIN;
-    } else if (!s.in.empty() && s.in_at <= now && s.sent.size() >= s.in_hold_sent) {
+    } else if (in_arrived(s) && s.sent.size() >= s.in_hold_sent) {
       r |= POLLIN;
       const InItem &h = s.in.front();
       if (h.hup && h.t == IN_EOF) r |= POLLHUP;
@@ -209,7 +225,10 @@ struct Kernel {
       return m;
     }
     if (s.conn == 1 && s.conn_at > now) m = std::min(m, s.conn_at);
-    if (!s.in_end && !s.in.empty() && s.in_at > now) m = std::min(m, s.in_at);
+    if (!s.in_end && !s.in.empty()) {
+      int64_t t = s.rcvlowat > 1 ? lowat_time(s) : s.in_at;
+      if (t > now && t != INT64_MAX) m = std::min(m, t);
+    }
     if (!s.out.empty() && s.out.front().t == OUT_BLOCK && s.out_at > now) m = std::min(m, s.out_at);
     return m;
   }
@@ -340,8 +359,25 @@ ssize_t __wrap_recv(int fd, void *buf, size_t len, int flags) {
     s->delivered.append(h.data, h.off, n);
     h.off += n;
     if (h.off == h.data.size()) {
+      int64_t t_prev = s->in_at;
       s->in.pop_front();
       k.arm_in(*s);
+      // SO_RCVLOWAT > 1: later segments arrived while the earlier ones were waiting in the kernel -- hand over what has accumulated
+      while (s->rcvlowat > 1 && n < len && !s->in.empty() && s->in.front().t == IN_DATA && t_prev + s->in.front().delay <= k.now) {
+        InItem &g = s->in.front();
+        t_prev += g.delay;
+        size_t m2 = std::min(len - n, g.data.size() - g.off);
+        memcpy((char *)buf + n, g.data.data() + g.off, m2);
+        s->delivered.append(g.data, g.off, m2);
+        g.off += m2;
+        n += m2;
+        if (g.off < g.data.size()) {
+          s->in_at = t_prev;
+          break;
+        }
+        s->in.pop_front();
+        k.arm_in(*s);
+      }
     }
     return (ssize_t)n;
   }
@@ -514,6 +550,12 @@ int __wrap_setsockopt(int fd, int lvl, int opt, const void *v, socklen_t l) {
   using namespace simk;
   Sock *s = K().get(fd);
   if (!s) return __real_setsockopt(fd, lvl, opt, v, l);
+  if (lvl == SOL_SOCKET && opt == SO_RCVLOWAT && v != nullptr && l >= (socklen_t)sizeof(int)) {
+    int x;
+    memcpy(&x, v, sizeof x);
+    s->rcvlowat = x < 1 ? 1 : x;
+    return 0;
+  }
   s->nodelay = true;
   return 0;
 }
